@@ -9,6 +9,10 @@ THEOREMS = ["PQ.C04." + t for t in (
     "specPage_levels", "specPage_levels_flat", "snappy_roundtrip", "matchLen_spec", "snappy_element", "unknown_fields_skipped",
     "unknown_fields_skipped_anywhere", "page_header_unknown_fields", "page_header_bytes_unknown_fields", "data_page_header_unknown_fields",
     "footer_unknown_fields", "column_meta_unknown_fields", "statistics_irrelevant", "statistics_irrelevant_reader")]
+# whole-file theorem: the reader model decodes every file of the independent spec writer, whatever legal
+# encoding choices it made (PQ/Lemmas/ForeignPage.lean, ForeignRT.lean)
+EXTRA_MODULES = ["PQ.Lemmas.ForeignRT"]
+EXTRA_THEOREMS = ["PQ.readAll_specWrite", "PQ.specPageBytes_none", "PQ.decPHdr_spHdr"]
 
 
 def spec_cases(chk, zs, thorough):
@@ -33,6 +37,8 @@ def spec_cases(chk, zs, thorough):
             else:
                 codecs = [rng.randrange(3) for _ in range(ncol)]       # per-column codec
             flags = ("s" if rng.random() < 0.5 else "") + ("e" if rng.random() < 0.5 else "") + "x"
+            if "s" in flags and rng.random() < 0.5:
+                flags += "n"          # statistics with min/max only: null_count is an optional member
             if rng.random() < 0.25:
                 flags += "p%d" % rng.choice([1, 3, 7, 15])
             rgs = []
@@ -41,6 +47,8 @@ def spec_cases(chk, zs, thorough):
                 if name in ("flat", "person") and k > 40:
                     k = 40
                 rgs.append([g.record(z.nodes) for _ in range(k)])
+            if rng.random() < 0.2:
+                rgs.insert(rng.randrange(len(rgs) + 1), [])       # a row group without rows (num_rows = 0) is legal
             out.append((z, codecs, flags, rng.randrange(1 << 30), rgs))
     # long pages encoded as ONE bit-packed run per level stream (run payloads far beyond 255 bytes), and as
     # RLE runs of length 1 only
@@ -62,7 +70,7 @@ def run(chk):
         cov["steps"] = rebuild_tools(chk.log)
         cov["steps"]["zoo"] = build_zoo(chk.log)
         build_pqh(chk.log)
-        pr = proof_stage(chk, MODULE, THEOREMS)
+        pr = proof_stage(chk, MODULE, THEOREMS + EXTRA_THEOREMS, EXTRA_MODULES, audit_imports=EXTRA_MODULES)
     pair = Pair(chk.log)
     zs = filelevel.load_zoos(pair, workloads.ZOOS)
     cases = spec_cases(chk, zs, thorough)
@@ -95,7 +103,7 @@ def run(chk):
     for (z, codecs, flags, seed, rgs), f, p, a, b, o in zip(cases, files, par, impl, model, ops):
         recs = [z.proj(r) for g in rgs for r in g]
         want = "open=ok rows=%d nexts=%d err=ok recs=%s" % (len(recs), len(recs), ";".join(recs) or "-")
-        wantp = "ok rows=%d rgs=%s" % (len(recs), "/".join(";".join(z.proj(r) for r in g) for g in rgs))
+        wantp = "ok rows=%d rgs=%s" % (len(recs), "/".join((";".join(z.proj(r) for r in g) or "-") for g in rgs))
         dist["codec_modes"]["mixed" if len(set(codecs)) > 1 else str(codecs[0])] = dist["codec_modes"].get("mixed" if len(set(codecs)) > 1 else str(codecs[0]), 0) + 1
         dist["flags"][flags] = dist["flags"].get(flags, 0) + 1
         dist["rowgroups"][len(rgs)] = dist["rowgroups"].get(len(rgs), 0) + 1
@@ -122,7 +130,7 @@ def run(chk):
         "obligations": pr["obligations"], "discharged": pr["discharged"], "axioms": pr["axioms"],
         "checker_cmd": "cd lean && lake build %s" % MODULE, "trusted_base": TRUSTED_BASE, "forbidden_constructs": pr["forbidden_constructs"],
         "evaluations": len(cases), "distinct_nontrivial": len(nontrivial),
-        "rule": "files produced by the independent Lean writer PQ.specWrite under seeded random legal choices: run segmentation of every level stream (RLE runs of any length, bit-packed runs of any group count incl. > 63, multi-byte headers, padding values), independent page splits per column at record boundaries, per-column codec (snappy streams from the Lean encoder with random literal/copy segmentation, gzip containers with stored blocks), statistics and optional/unknown thrift fields present or absent; 5 structs; non-trivial = distinct file read back correctly",
+        "rule": "files produced by the independent Lean writer PQ.specWrite under seeded random legal choices: run segmentation of every level stream (RLE runs of any length, bit-packed runs of any group count incl. > 63, multi-byte headers, padding values), independent page splits per column at record boundaries, per-column codec (snappy streams from the Lean encoder with random literal/copy segmentation, gzip containers with stored blocks), statistics (complete, or min/max without the optional null_count) and optional/unknown thrift fields present or absent; 5 structs; non-trivial = distinct file read back correctly",
         "samples": [ops[0][:300], ops[len(ops) // 2][:300]],
         "input_distribution": dist,
         "tie": "reader model = generated reader on every foreign file; specWrite's files validated by PQ.parseFile; Lean snappy/gzip streams decoded by the external libraries",
